@@ -298,8 +298,9 @@ def run_a(ctx):
   if ctx.idx == 0:
     ctx.info["A_lattice_size"] = len(cfgs)
   n_done = 0
+  keep_for_hyp = 0.3 * max(ctx.time_left(), 0.0)   # of this part's slice
   for k, cfg in ctx.shard(list(enumerate(cfgs))):
-    if ctx.time_left() <= ctx.budget_s * 0.3:
+    if ctx.time_left() <= keep_for_hyp:
       ctx.labels["inconclusive_time"] += 1
       break
     case = {"part": "A", "cfg": cfg, "xs": G.clean(G.PROBE),
@@ -1208,19 +1209,21 @@ def _chunked(ctx, part, total, chunk, fn):
 def run(ctx):
   import tensorflow as tf  # pylint: disable=g-import-not-at-top
   quick = ctx.quick
-  with _Slice(ctx, 0.32, "A"):
+  # Part D first: its deterministic shard (a few fits) is always completed,
+  # the time-sliced parts after it share what is left of the budget.
+  with _Slice(ctx, 0.12, "D"):
+    run_d(ctx)
+  with _Slice(ctx, 0.40, "A"):
     run_a(ctx)
   tf.keras.backend.clear_session()
   cfgs = G.lattice(ctx.tier)
-  with _Slice(ctx, 0.6, "B"):
+  with _Slice(ctx, 0.66, "B"):
     mb = make_machine_b(ctx, cfgs)
     _chunked(ctx, "B", (1200 if quick else 16000) // ctx.n + 1,
              20 if quick else 100,
              lambda n, nm: core.hyp_machine(
                  ctx, mb, n, step_count=12 if quick else 25, name="c07" + nm))
   tf.keras.backend.clear_session()
-  with _Slice(ctx, 0.65, "D"):
-    run_d(ctx)       # deterministic shard, always completed (a few fits)
   with _Slice(ctx, 1.0, "C"):
     mc = make_machine_c(ctx)
     _chunked(ctx, "C", (1600 if quick else 24000) // ctx.n + 1,
